@@ -298,6 +298,8 @@ struct Sent {
     /// The connection this request went over was disturbed by the client
     /// (abort, stall beyond the write timeout, burst beyond the queue).
     excused: Option<&'static str>,
+    /// Stream requests: when their connection was set up.
+    conn_ns: u64,
 }
 
 impl Sent {
@@ -708,6 +710,7 @@ async fn udp_client(led: Led, udp: UdpNet, server: std::net::SocketAddr, client:
             conn: 0,
             sent_ns: sim::now_ns(),
             excused: None,
+            conn_ns: 0,
         });
         sock.send_exact(server, bytes, sim::draw("udp.latency", 3));
         pending += 1;
@@ -968,6 +971,7 @@ async fn stream_client(exec: Exec, led: Led, listener: SimListener, client: usiz
                     conn,
                     sent_ns: sim::now_ns(),
                     excused: if junk_sent { Some("hostile-input-on-same-connection") } else { None },
+                    conn_ns: conn_start_ns,
                 });
                 l.sent.len() - 1
             };
@@ -1622,7 +1626,11 @@ fn check(led: &Led, max_response_size: Option<u16>, junk: &[Vec<u8>]) {
                             // counts too: a connection busy writing to a slow
                             // reader takes the command from its channel only
                             // afterwards, i.e. after the feedback took effect.)
-                            let undone = called.is_some_and(|t0| RECONF_NS.with(|r| r.borrow().iter().any(|t| *t <= t0 + idle_ns * 3 / 2)));
+                            // (Not one issued a millisecond or more before the
+                            // connection existed: a new connection applies the
+                            // last command before it reads anything, well ahead
+                            // of any feedback from a service.)
+                            let undone = called.is_some_and(|t0| RECONF_NS.with(|r| r.borrow().iter().any(|t| *t <= t0 + idle_ns * 3 / 2 && *t + 1_000_000 > s.conn_ns)));
                             if !s.udp && (s.ask.e == 6 || (s.ask.e == 5 && undone)) {
                                 "response-lost/stream/request-in-flight-longer-than-the-idle-timeout".to_string()
                             } else {
